@@ -56,7 +56,7 @@ def parseOverride (s : String) : Option (List (Bytes × Nat)) :=
 
 def opTxn (op : String) (a : List String) (st : DrvState) : Option (DrvState × String) :=
   match op, a with
-  | "clock.reset", [] => some ({}, "ok")
+  | "clock.reset", [] => some ({ st with envs := [] }, "ok")
   | "env.new", [id, native, hack, pad, ro, ovr] => do
     let native ← boolArg native
     let hack ← boolArg hack
